@@ -73,6 +73,10 @@ def enumerated(tier):
     for ev_ in ("RUNNING_SPA_DISCONNECTED", "CLIENT_FACADE_TEARDOWN", "SPA_MAN_EXIT"):
         dark.append({"cycles": [], "exit_at": 8.0, "jitter": [], "suspend_map": {ev_: 1.0}})
         dark.append({"cycles": [["blackout", "reset", 0.0, 0]], "exit_at": 8.0, "jitter": [], "suspend_map": {ev_: 1.0}})
+    # the library's own recovery reset (run from inside the ping loop once a ping is answered again after an error state)
+    for flt_ in ("blackout", "rferr"):
+        for at_ in (70.0, 130.0):
+            dark.append({"cycles": [[flt_, "reset", at_, 0]], "exit_at": 3.0, "jitter": [], "suspend_map": {}})
     # the timing table is re-selected (which wakes the task manager's tidy pass) at each loop step around the start of the connection
     # attempt; a reset and the exit follow
     for step in range(28, 56):
@@ -350,6 +354,14 @@ def run_case(case) -> Result:
         finally:
             if not exited:
                 await man.__aexit__(None, None, None)
+        # ---- every reset, also the manager's own recovery reset (run by the spa's ping loop), ends the tasks of the connection
+        for r in man.resets:
+            alive = (r.get("late") or {}).get("alive_after")
+            if alive:
+                origin = "recovery" if r["task"].startswith("SPA:") else "user"
+                res.fail(f"C10|task-survives|{origin}-reset|{alive[0]}", f"async_reset() run by {r['task']} at {r['t0'] - t_enter:.2f}s: 0.35 s after it returned "
+                         f"{alive} of the abandoned connection are still running")
+                break
         # ---- every reset, also the manager's own recovery reset (run by the spa's ping loop), closes the endpoint it abandons
         for r in man.resets:
             tr = r.get("transport")
